@@ -197,6 +197,7 @@ def run(ctx):
                         "temp names *.<pid>.renamify.tmp do not collide with user files",
                         "no symlinked directory inside a planned path"]
     ctx.prove("RModel.Props.C02")
+    ctx.prove("RModel.Props.C02ren")
     ok, msg = common.cargo_build()
     if not ok:
         ctx.broke("build", "cargo", msg)
